@@ -11,6 +11,8 @@
 (*              the object (they differ in the set-up life cycle and in     *)
 (*              what "computing a row" means, see below)                    *)
 (*   stored     FromFile: identity of the geometry the file was written for *)
+(*   keepAll, processed   SPECTUB: keep_all_views_in_cache; the views whose *)
+(*              rows have been computed (subset_already_processed)          *)
 (*   cache      set of entries [view, seg, key, bin, row]: the maps        *)
 (*              cache_collection[view][segment] : key -> row               *)
 (*              (bin is a ghost field: the bin the row was stored for)     *)
@@ -85,7 +87,7 @@ NoRow == [gen |-> -1]
 
 (* ------------------------------ the object ------------------------------ *)
 NewMatrix(impl, req, cacheOn, basicOnly) ==
-  [impl |-> impl, stored |-> 0, cache |-> {}, cacheOn |-> cacheOn, basicOnly |-> basicOnly, done |-> FALSE, gen |-> 0, req |-> req,
+  [impl |-> impl, stored |-> 0, keepAll |-> TRUE, processed |-> {}, cache |-> {}, cacheOn |-> cacheOn, basicOnly |-> basicOnly, done |-> FALSE, gen |-> 0, req |-> req,
    esw |-> NoSym, c |-> [N |-> 0], g |-> [nppr |-> 0]]
 \* defaults of the class: every symmetry on, cache enabled, only basic bins stored
 AllSym == [s90 |-> TRUE, s180 |-> TRUE, sseg |-> TRUE, ss |-> TRUE, sz |-> TRUE]
@@ -146,11 +148,63 @@ NewFromFile(gen, c, g, headerSw, cacheOn, basicOnly) ==
                                                                !.esw = EffectiveSwitches(c, g, headerSw)]
 FileEntries(st, gen) == { [view |-> bb.view, seg |-> bb.seg, key |-> Key(bb), bin |-> bb, row |-> Row(gen, bb)] : bb \in BasicSet(st.c, st.esw) }
 \* set_up of a FromFile object for geometry gen: [st, inserts (a SET of call-outs: the order is the file's), refused]
+\* (notes/C03-fix-5.diff makes set_up refuse a disabled cache; the runner sets C03_FROMFILE_GUARD_FIXED when
+\* that patch is present in the source tree under test)
+FromFileGuardApplied == "C03_FROMFILE_GUARD_FIXED" \in DOMAIN IOEnv
 DoSetUpFromFile(st, gen) ==
-  IF gen # st.stored THEN [st |-> st, inserts |-> {}, refused |-> TRUE]
+  IF gen # st.stored \/ (FromFileGuardApplied /\ ~st.cacheOn) THEN [st |-> st, inserts |-> {}, refused |-> TRUE]
   ELSE [st |-> [st EXCEPT !.cache = IF st.cacheOn THEN FileEntries(st, gen) ELSE {}, !.done = TRUE, !.gen = gen],
         inserts |-> IF st.cacheOn THEN { EvInsert(bb, FALSE) : bb \in BasicSet(st.c, st.esw) } ELSE {},
         refused |-> FALSE]
+
+(* ProjMatrixByBinSPECTUB (no symmetries) computes the rows of a whole VIEW *)
+(* at a time and keeps them in the cache: a request that misses the cache   *)
+(* in a view not computed yet first - unless all views are kept - clears    *)
+(* the cache and forgets which views were computed, then computes the view  *)
+(* and stores every row of it (one cache.insert call-out per bin).  This    *)
+(* section is IMPLEMENTATION-SHAPED: it says what the class does, including *)
+(* what the property forbids (known finding C03-spectub-empty): the request *)
+(* that triggers the computation gets an EMPTY row; set_up re-creates the   *)
+(* cache maps BEFORE deciding that "the stored matrix can be reused", and   *)
+(* clear_cache keeps the record of computed views - in both cases every row *)
+(* of an already computed view is empty from then on; with the cache        *)
+(* disabled every row is empty.  What the property demands is in            *)
+(* SpectubIntended.                                                         *)
+NewSpectub(keepAll, cacheOn, basicOnly) == [NewMatrix("SPECTUB", NoSym, cacheOn, basicOnly) EXCEPT !.keepAll = keepAll]
+ViewBins(c, v) == { x \in AllBins(c) : x.view = v }
+DoSetUpSpectub(st, gen, c, g) ==
+  IF st.done /\ gen = st.gen
+  THEN Out([st EXCEPT !.cache = {}], << >>, NoRow)          \* maps re-created, then "just reuse it": processed is kept
+  ELSE Out([st EXCEPT !.cache = {}, !.done = TRUE, !.gen = gen, !.c = c, !.g = g, !.esw = NoSym, !.processed = {}],
+           IF st.done THEN << EvClear >> ELSE << >>, NoRow)
+\* set_keep_all_views_in_cache: a changed value requires a new set_up
+DoSetKeepAll(st, v) == Out([st EXCEPT !.keepAll = v, !.done = @ /\ v = st.keepAll], << >>, NoRow)
+\* a request: [st, pre, clear, inserts, post, ret]: call-outs = pre, then (if clear) cache.clear, then the inserts of
+\* the view in any order, then post
+DoGetSpectub(st, b) ==
+  LET kb == Key(b)
+      fb == FindK(st, b, kb)
+      l1 == LookupEvents(st, b, kb, fb)
+      pre == IF st.basicOnly THEN l1 ELSE l1 \o l1          \* without symmetries the basic bin is the bin: looked up twice
+      none == [st |-> st, pre |-> pre, clear |-> FALSE, inserts |-> {}, post |-> << >>, ret |-> NoRow]
+  IN IF LookupHit(st, fb) THEN [none EXCEPT !.pre = l1, !.ret = CachedRow(fb)]
+     ELSE LET compute == b.view \notin st.processed
+              clear == compute /\ ~st.keepAll
+              base == IF clear THEN {} ELSE st.cache
+              new == IF compute /\ st.cacheOn
+                     THEN { [view |-> x.view, seg |-> x.seg, key |-> Key(x), bin |-> x, row |-> Row(st.gen, x)] :
+                              x \in { y \in ViewBins(st.c, b.view) : ~(\E e \in base : e.bin = y) } }
+                     ELSE {}
+              st1 == [st EXCEPT !.cache = base \cup new,
+                                !.processed = IF compute THEN (IF clear THEN {} ELSE @) \cup {b.view} ELSE @]
+              f1 == FindK(st1, b, kb)
+              \* the row handed back by the computation is empty; it is offered to the cache under the bin's key
+          IN [st |-> Inserted(st1, b, kb, f1, EmptyRow(st.gen, b)), pre |-> pre, clear |-> clear,
+              inserts |-> IF compute /\ st.cacheOn
+                          THEN { EvInsert(x, \E e \in base : e.bin = x) : x \in ViewBins(st.c, b.view) } ELSE {},
+              post |-> InsertEvents(st1, b, kb, f1), ret |-> EmptyRow(st.gen, b)]
+\* the property: whatever the history, the row of the bin for the current geometry
+SpectubIntended(st, b) == Row(st.gen, b)
 
 \* enable_cache, store_only_basic_bins_in_cache: only flip the mode, the content stays
 DoEnableCache(st, v) == Out([st EXCEPT !.cacheOn = v], << >>, NoRow)
